@@ -17,7 +17,6 @@
 import random
 from typing import AsyncIterable, Iterable, TypeVar
 
-import asyncstdlib
 import numpy as np
 
 
@@ -68,10 +67,14 @@ async def shuffle_buffer_async(iterable: AsyncIterable[T],
     # Otherwise the first elements of a list would be iterated multiple times.
     iterable = aiter(iterable)
 
-    # Fill the buffer.
+    # Fill the buffer. Do not use `asyncstdlib.zip` here, it closes `iterable`
+    # when finished and the rest of the elements would be lost.
     buffer: list[T] = []
-    async for _, item in asyncstdlib.zip(range(buffer_size), iterable):
-        buffer.append(item)
+    for _ in range(buffer_size):
+        try:
+            buffer.append(await anext(iterable))
+        except StopAsyncIteration:
+            break
 
     # Iterate and keep filling the buffer.
     r = initial_random_state()
